@@ -1,14 +1,16 @@
 import CpModel.Proto
-import CpModel.Multipart
+import CpModel.MultipartR
 /-!
   Driver for C04 (multipart parser).  One case per line, three fields:
 
-    BOUNDARYHEX MAXRAM BODYHEX
+    BOUNDARYHEX MAXRAM BUFSIZE LENGTH FRAG CONNHEX
 
-  Output: `ok rest=<n> done=<0|1> G=<name>:<i>+<j>,… P <name> <filename> <ctype> <spilled> <content> P …`
+  (LENGTH = declared Content-Length or `N`; FRAG as in the C05 driver; CONNHEX = everything the connection
+  holds, possibly more than LENGTH.)  The concrete parser `CpModel.MultipartR` is executed.
+  Output: `ok off=<stream offset|N> x=0 G=<name>:<i>+<j>,… P <name> <filename> <ctype> <spilled> <content> P …`
   (hex fields, `N` for None, `-` for empty) or `err:<kind>`.
 -/
-open CpModel CpModel.Reader CpModel.Multipart
+open CpModel CpModel.Reader CpModel.Multipart CpModel.MultipartR
 
 namespace Drv.C04
 
@@ -18,24 +20,28 @@ def optHex : Option Bytes → String
 
 def showErr : Err → String
   | .eofHeaders => "eofHeaders" | .eofBody => "eofBody" | .noCRLF => "noCRLF"
-  | .noColon => "noColon" | .badContinuation => "badContinuation" | .fuel => "fuel"
+  | .noColon => "noColon" | .badContinuation => "badContinuation" | .reader413 => "reader413" | .fuel => "fuel"
+
+def parseNats (s : String) : Option (List Nat) :=
+  if s == "-" then some [] else (s.splitOn ",").mapM (·.toNat?)
 
 def step (line : String) : String :=
   match Proto.fields line with
-  | [b, m, body] =>
-    match Proto.unhex? b, m.toNat?, Proto.unhex? body with
-    | some b, some m, some body =>
-      match processMultipart b m body with
+  | [b, m, bufsize, len, frag, conn] =>
+    match Proto.unhex? b, m.toNat?, bufsize.toNat?, Proto.optNat? len, parseNats frag, Proto.unhex? conn with
+    | some b, some m, some bufsize, some len, some frag, some conn =>
+      let cfg : Cfg := { length := len, maxbytes := none, bufsize := bufsize }
+      match processMultipartR cfg b m conn frag with
       | .error e => "err:" ++ showErr e
-      | .ok (parts, src) =>
+      | .ok (parts, st) =>
         let ps := parts.map fun p =>
           let i := partInfo p.headers
           s!" P {optHex i.name} {optHex i.filename} {Proto.hex i.ctype} {if p.spilled then 1 else 0} {Proto.hex p.content}"
         let g := (formParams (parts.map fun p => partInfo p.headers)).map fun (k, vs) =>
           s!"{Proto.hex k}:" ++ "+".intercalate (vs.map toString)
-        s!"ok rest={src.rest.length} done={if src.done then 1 else 0} G={if g.isEmpty then "-" else ",".intercalate g}"
-          ++ String.join ps
-    | _, _, _ => "bad-op"
+        let off := match st with | some s => toString s.off | none => "N"
+        s!"ok off={off} x=0 G={if g.isEmpty then "-" else ",".intercalate g}" ++ String.join ps
+    | _, _, _, _, _, _ => "bad-op"
   | _ => "bad-op"
 
 end Drv.C04
